@@ -56,7 +56,13 @@ def main(argv):
     ap.add_argument('--tier', default=os.environ.get('VERIF_TIER', 'quick'), choices=['quick', 'thorough'])
     ap.add_argument('--runs', type=int, default=None, help='override the number of runs (development)')
     a = ap.parse_args(argv)
-    seed = int(os.environ.get('VERIF_SEED', '1') or '1')
+    raw = os.environ.get('VERIF_SEED', '1') or '1'
+    try:
+        seed = int(raw)
+    except ValueError:
+        import hashlib
+        seed = int.from_bytes(hashlib.sha256(raw.encode()).digest()[:7], 'big')   # any string is a seed
+        sys.stderr.write('VERIF_SEED=%r is not an integer; using %d\n' % (raw, seed))
     try:
         if a.what == 'replay':
             return cmd_replay(a.arg)
